@@ -437,4 +437,9 @@ structure FloatCodec.Law32 (fc : FloatCodec) : Prop where
   accepted : ∀ b, isFinite32 b = true → (fc.parse64 (fc.format32 (widen b))).isSome = true
   roundtrip : ∀ b, isFinite32 b = true → fc.parse32 (fc.format32 (widen b)) = some b
 
+/-- "7.038531e-26" -/
+def witnessText : List Byte :=
+  [0x37#8, 0x2e#8, 0x30#8, 0x33#8, 0x38#8, 0x35#8, 0x33#8, 0x31#8, 0x65#8, 0x2d#8, 0x32#8, 0x36#8]
+
+
 end Model.DefVal
